@@ -185,6 +185,15 @@ def F_same(a, b):
                for (m1, k1, q1, d1), (m2, k2, q2, d2) in zip(a.terms, b.terms))
 
 
+def F_zero(f):
+    """the form is identically zero (identical rounded quotients are merged first)"""
+    acc = {}
+    for m, k, q, d in f.terms:
+        key = (k, tuple(sorted(q.items())), tuple(sorted(d.items())))
+        acc[key] = P_add(acc.get(key, {}), m)
+    return not f.p0 and all(not m for m in acc.values())
+
+
 def F_subst(f, atom, value):
     return Form(P_subst(f.p0, atom, value), [(P_subst(m, atom, value), k, P_subst(q, atom, value), P_subst(d, atom, value))
                                               for m, k, q, d in f.terms])
